@@ -304,6 +304,7 @@ type zzC10rOp struct {
 	nonce     uint64
 	delEmpty  bool
 	valChange *big.Int
+	nonce2    uint64
 }
 
 func zzC10rPick(tag string, withVal bool) zzC10rOp {
@@ -326,6 +327,7 @@ func zzC10rPick(tag string, withVal bool) zzC10rOp {
 		op.delEmpty = zzverif.Bool(tag + ".deleteEmpty")
 	case 8, 9:
 		op.valChange = zzverif.Big(tag+".valAmount", 64)
+		op.nonce, op.nonce2 = uint64(zzverif.U16(tag+".height1")), uint64(zzverif.U16(tag+".height2"))
 	}
 	return op
 }
@@ -368,6 +370,13 @@ func zzC10rApply(s *StateDB, op zzC10rOp, flush bool) {
 			nv.Stake = params.YOUToStake(nv.Token)
 			nv.SelfStake = params.YOUToStake(nv.SelfToken)
 			nv.Status = 1 - nv.Status
+			// slashing and reward bookkeeping fields ride along (every field of the record is persisted)
+			nv.Expelled = !nv.Expelled
+			nv.ExpelExpired = op.nonce
+			nv.LastInactive = op.nonce2
+			nv.RewardsLastSettled = op.nonce + op.nonce2
+			nv.RewardsDistributable.Add(nv.RewardsDistributable, op.valChange)
+			nv.UpdateLastActive(op.nonce2 + 1)
 			s.UpdateValidator(nv, cur)
 		}
 	case 9: // a delegation to validator 1
